@@ -274,6 +274,10 @@ def order_cases(tier, seed):
     for pat in ("a=x", "b=a+x", "a=x&b=y"):
         for scheme in ("hashA", "basis_x"):
             out.append(emit(dev(shape=[2, 2, 3, 2], pat=pat, scheme=scheme), "core:(2,2,3,2)"))
+    for shape in ([3, 2, 2, 2], [2, 3, 2, 2]):  # unequal answer alphabets, question-dependent and a<->b-asymmetric patterns
+        for pat in ("b=a+x", "a=x&b=y"):
+            for scheme in ("hashA", "basis_x"):
+                out.append(emit(dev(shape=shape, pat=pat, scheme=scheme), "core:unequal-answers"))
     if tier == "thorough":
         names = list(axes)
         for i, j in itertools.combinations(range(len(names)), 2):
@@ -293,7 +297,8 @@ def order_alphabets(tier, seed):
     return {"default": DEFAULT, "R": [1, 2, 3], "shapes": [list(s) for s in ORDER_SHAPES], "patterns": rg.PATTERNS,
             "schemes": rg.schemes(2), "distributions": rg.PROBS, "npa_levels": [1, "1+ab", 2],
             "deviation_level_completed": 1 if tier == "quick" else 2, "entropy_tape": "t0",
-            "cores": ["pattern x scheme on (2,2,2,2) for R=2 and R=1", "3 patterns x 2 schemes on (2,2,3,2)"]}
+            "cores": ["pattern x scheme on (2,2,2,2) for R=2 and R=1", "3 patterns x 2 schemes on (2,2,3,2)",
+                      "2 patterns x 2 schemes on (3,2,2,2) and (2,3,2,2)"]}
 
 
 def order_check(case):
@@ -622,12 +627,14 @@ def clone_cases(tier, seed):
     out.append(emit({"kets": NAMED_ENSEMBLES["six"], "prior": "ramp", "reps": 1, "form": "col"}))
     # input forms: 1-D vectors, density matrices, real dtype (only real kets), priors as ndarray
     for name, ens in NAMED_ENSEMBLES.items():
-        for form in ("vec1d", "dm", "colreal", "col_nd"):
-            if form == "colreal" and any(np.abs(catalog.ket(2, k).imag).max() > 0 for k in ens):
+        for form in ("vec1d", "dm", "colreal", "vec1dreal", "col_nd"):
+            if form in ("colreal", "vec1dreal") and any(np.abs(catalog.ket(2, k).imag).max() > 0 for k in ens):
                 continue
             out.append(emit({"kets": ens, "prior": "uniform", "reps": 1, "form": form}))
     for a, b in itertools.combinations(kets, 2):
-        for form in ("vec1d", "dm"):
+        for form in ("vec1d", "dm", "vec1dreal"):
+            if form == "vec1dreal" and any(np.abs(catalog.ket(2, k).imag).max() > 0 for k in (a, b)):
+                continue
             out.append(emit({"kets": [a, b], "prior": "ramp", "reps": 1, "form": form}))
     # two repetitions
     r2 = list(NAMED_ENSEMBLES.values())
@@ -644,7 +651,7 @@ def clone_cases(tier, seed):
 def clone_alphabets(tier, seed):
     kets = CLONE_KETS_QUICK + (CLONE_KETS_MORE if tier == "thorough" else [])
     return {"kets": kets, "subset_sizes": [1, 2, 3, 4], "named": NAMED_ENSEMBLES, "priors": ["uniform", "ramp", "g0"], "reps": [1, 2],
-            "forms": ["col (complex dtype column)", "colreal (float dtype column)", "vec1d", "dm (pure density matrix)",
+            "forms": ["col (complex dtype column)", "colreal (float dtype column)", "vec1d", "vec1dreal (float dtype 1-D)", "dm (pure density matrix)",
                       "col_nd (priors as ndarray)"], "strategy": ["dual (False)", "primal (True)"]}
 
 
@@ -685,6 +692,8 @@ def clone_check(case):
         states = [v.real.reshape(-1, 1).copy() for v in vs]
     elif form == "vec1d":
         states = [v.copy() for v in vs]
+    elif form == "vec1dreal":
+        states = [v.real.copy() for v in vs]
     elif form == "dm":
         states = [np.outer(v, v.conj()) for v in vs]
     else:
